@@ -99,6 +99,7 @@ type c15Cfg struct {
 	Auth        bool   `json:"server_authenticator"`
 	Creds       bool   `json:"client_sends_credentials"`
 	Rich        string `json:"payload_enrichment,omitempty"`
+	Prelude     string `json:"earlier_request,omitempty"` // "", "accepted", "refused"
 	Empty       bool   `json:"empty_payload"`
 	Raw         string `json:"raw_request,omitempty"`
 }
@@ -167,6 +168,7 @@ func runC15(r *simkit.Run) {
 			outcome = consumererror.NewPermanent(st.Err())
 		}
 	}
+	cfg.Prelude = []string{"", "accepted", "refused"}[tp.Weighted(4, 1, 1)]
 	cfg.Auth = tp.Chance(1, 4)
 	cfg.Creds = !cfg.Auth || tp.Chance(2, 3)
 	cfg.Empty = tp.Chance(1, 10)
@@ -268,6 +270,13 @@ func runC15(r *simkit.Run) {
 				cfg.Rich = "rich+non-finite-doubles"
 			}
 			gen.Enrich(tp, payload, extreme)
+			if tp.Chance(1, 3) {
+				// and whatever else the public pdata API lets a producer set: a seeded walk over the object graph found
+				// by reflection, calling setters with generated arguments (never the empty-bytes constructors: a Bytes
+				// value without content has the wire form of an absent value)
+				cfg.Rich += "+reflective-setters"
+				reflectProgramExcl(payload, int64(tp.Draw(1<<30)), "r\u00e9fl", 20, nil, []string{"EmptyBytes"})
+			}
 			r.Sample = cfg
 		}
 	}
@@ -364,6 +373,25 @@ func runC15(r *simkit.Run) {
 	}
 	defer func() { _ = exp.Shutdown(context.Background()) }()
 	simkit.Beat()
+	if cfg.Prelude != "" {
+		// an earlier request through the same exporter and receiver (other content; accepted, or refused with a
+		// transient error): connections, streams, pooled codecs and buffers are then in a used state; only the
+		// second request is judged
+		r.Count("probe.prelude_request")
+		judged, judgedOutcome := payload, outcome
+		payload = gen.Shape{MaxResources: 2, MaxScopes: 2, MaxMetrics: 2, MaxItems: 4, NonEmpty: true}.Gen(tp, ids, cfg.Signal)
+		gen.Enrich(tp, payload, false)
+		outcome = nil
+		if cfg.Prelude == "refused" {
+			outcome = errors.New("sim consumer: transient (earlier request)")
+		}
+		_ = send(context.Background())
+		mu.Lock()
+		sinkCalls, sinkBytes = 0, nil
+		mu.Unlock()
+		payload, outcome = judged, judgedOutcome
+		simkit.Beat()
+	}
 	serr := send(context.Background())
 	simkit.Beat()
 	if serr != nil && (strings.Contains(serr.Error(), "cannot assign requested address") || strings.Contains(serr.Error(), "address already in use")) {
@@ -400,7 +428,7 @@ func runC15(r *simkit.Run) {
 		}
 		return
 	}
-	if len(sent) == 0 || cfg.Empty {
+	if len(sent) == 0 || cfg.Empty || p.itemCount(payload) == 0 {
 		r.Count("probe.empty_payload")
 		if calls != 0 {
 			r.Failf("empty", "consumer-invoked/"+loc, "a request without items invoked the consumer")
